@@ -8,8 +8,10 @@
          unscheduled and ONE wake-up is scheduled from the live table             (was: from a stale snapshot,
          leaving an orphan wake-up that later crashed with KeyError)
 
-   Time: exact integers, microseconds (the harness keeps every instant on a 1/8 s grid, where the float
-   arithmetic of the implementation is exact).  `ms` arguments are integer milliseconds, as in the API.
+   Time: exact integers, microseconds.  The harness keeps every instant either on a 1/8 s grid, where the float
+   arithmetic of the implementation is exact, or (generic stream) at arbitrary microseconds at least 50 us away from
+   every timer, where no comparison of the implementation has equal operands.  `ms` arguments are integer
+   milliseconds, as in the API.
 
    Switches are independent in the controller (all tables are keyed by switch); the harness runs several
    switches at once and projects the timeline on each of them.
@@ -242,9 +244,16 @@ Definition process (A : Z -> list act) (now : Z) (s : state) (w : Z) : state * l
   end.
 
 (* ---- is_active / is_inactive / is_state ---------------------------------------------------------- *)
+(* Switch.get_ms_since_last_change: round((now - last_change) * 1000.0, 0), i.e. whole milliseconds, half to even
+   (on the 1/8 s grid the elapsed time is a whole number of ms; the generic stream never queries at x.5 ms) *)
+Definition rnd_ms (e : Z) : Z :=
+  let q := e / 1000 in
+  let r := e mod 1000 in
+  if r <? 500 then q else if 500 <? r then q + 1 else if Z.even q then q else q + 1.
+
 Definition query (now : Z) (s : state) (st : bool) (ms : Z) : bool :=
   if ms =? 0 then Bool.eqb (sst s) st
-  else Bool.eqb (sst s) st && (ms <=? (now - lc s) / 1000).
+  else Bool.eqb (sst s) st && (ms <=? rnd_ms (now - lc s)).
 
 (* ---- external operations and the loop ------------------------------------------------------------ *)
 Inductive op :=
@@ -279,25 +288,35 @@ Fixpoint earliest (l : list wake) : option wake :=
 
 (* run every timer (wake-ups and the recycle timer) due at or before t, earliest first (TimeTravelLoop: the
    clock jumps to each timer).  A recycle timer and a wake-up due at the same instant commute (the first only
-   reads the state and posts events, the second only touches registries/timers); the recycle timer goes first. *)
-Definition due_recycle (s : state) (t : Z) : option Z :=
-  match rc (dv s) with Some (tr, _) => if tr <=? t then Some tr else None | None => None end.
-Definition due_wake (s : state) (t : Z) : option wake :=
-  match earliest (wakes (tm s)) with Some (w, tw) => if tw <=? t then Some (w, tw) else None | None => None end.
+   reads the state and posts events, the second only touches registries/timers); the recycle timer goes first.
 
-Fixpoint advance (A : Z -> list act) (fuel : nat) (t clk : Z) (s : state) : state * list obs * Z :=
+   The scheduler's choice at coincidences is an INPUT (DESIGN.md 2.4): an external operation at time t may be
+   delivered while timers that are already due have not run yet (asyncio runs I/O callbacks of an iteration
+   before its due timers, equal deadlines have no promised order, and a busy loop is late).  [hw]/[hr] are the
+   deadlines of the wake-up / window-end timer the operation overtook (observed on the implementation; t+1 when
+   it overtook none): timers with a deadline >= the threshold are held back until after the operation, and then
+   run at the clock value of the operation. *)
+Definition due_recycle (s : state) (t hr : Z) : option Z :=
+  match rc (dv s) with Some (tr, _) => if (tr <=? t) && (tr <? hr) then Some tr else None | None => None end.
+Definition due_wake (s : state) (t hw : Z) : option wake :=
+  match earliest (wakes (tm s)) with
+  | Some (w, tw) => if (tw <=? t) && (tw <? hw) then Some (w, tw) else None
+  | None => None
+  end.
+
+Fixpoint advance (A : Z -> list act) (fuel : nat) (t hw hr clk : Z) (s : state) : state * list obs * Z :=
   match fuel with
   | O => (s, [Crash (-1)], clk)
   | S f =>
       let run_r tr :=
           let now := Z.max tr clk in
           let '(s1, o1) := recycle_passed now s in
-          let '(s2, o2, clk2) := advance A f t now s1 in (s2, o1 ++ o2, clk2) in
+          let '(s2, o2, clk2) := advance A f t hw hr now s1 in (s2, o1 ++ o2, clk2) in
       let run_w w tw :=
           let now := Z.max tw clk in
           let '(s1, o1) := process A now s w in
-          let '(s2, o2, clk2) := advance A f t now s1 in (s2, o1 ++ o2, clk2) in
-      match due_recycle s t, due_wake s t with
+          let '(s2, o2, clk2) := advance A f t hw hr now s1 in (s2, o1 ++ o2, clk2) in
+      match due_recycle s t hr, due_wake s t hw with
       | Some tr, Some (w, tw) => if tr <=? tw then run_r tr else run_w w tw
       | Some tr, None => run_r tr
       | None, Some (w, tw) => run_w w tw
@@ -305,12 +324,12 @@ Fixpoint advance (A : Z -> list act) (fuel : nat) (t clk : Z) (s : state) : stat
       end
   end.
 
-Fixpoint run_ops (A : Z -> list act) (fuel : nat) (clk : Z) (s : state) (ops : list (Z * op))
+Fixpoint run_ops (A : Z -> list act) (fuel : nat) (clk : Z) (s : state) (ops : list (Z * (Z * Z) * op))
   : state * list obs :=
   match ops with
   | [] => (s, [])
-  | (t, o) :: ops' =>
-      let '(s1, l1, clk1) := advance A fuel t clk s in
+  | (t, (hw, hr), o) :: ops' =>
+      let '(s1, l1, clk1) := advance A fuel t hw hr clk s in
       let '(s2, l2) := step_op A t s1 o in
       let '(s3, l3) := run_ops A fuel (Z.max clk1 t) s2 ops' in
       (s3, l1 ++ l2 ++ l3)
@@ -357,8 +376,13 @@ Definition init_state (nc st h : bool) (lc0 win : Z) (reg0 reg1 : list (Z * Z)) 
 
 Definition is_ev (cb : Z) : bool := 1000 <=? cb.
 
+(* callbacks 100..999 are the handlers of wait_for_switch futures (script: remove itself); the harness observes
+   them through their futures, which resolve after the dispatch that invoked them: compared as a sorted row *)
+Definition is_wait (cb : Z) : bool := (100 <=? cb) && (cb <? 1000).
 Definition rows_cb (l : list obs) : list (list Z) :=
-  flat_map (fun o => match o with Fire t cb _ _ => if is_ev cb then [] else [[0; t; cb]] | _ => [] end) l.
+  flat_map (fun o => match o with Fire t cb _ _ => if is_ev cb || is_wait cb then [] else [[0; t; cb]] | _ => [] end) l.
+Definition keys_w (l : list obs) : list Z :=
+  flat_map (fun o => match o with Fire t cb _ _ => if is_wait cb then [t * 1000 + cb] else [] | _ => [] end) l.
 Definition rows_ev (l : list obs) : list (list Z) :=
   flat_map (fun o => match o with Fire t cb _ _ => if is_ev cb then [[1; t; cb]] else [] | _ => [] end) l.
 Definition rows_q (l : list obs) : list (list Z) :=
@@ -370,16 +394,16 @@ Fixpoint insert_z (x : Z) (l : list Z) : list Z :=
   match l with [] => [x] | y :: l' => if x <=? y then x :: l else y :: insert_z x l' end.
 Definition sort_z (l : list Z) : list Z := fold_right insert_z [] l.
 
-(* input: ((nc, state0, hw0, lc0, window_us), (reg0, reg1), acts, ops, (t_end, fuel)) *)
+(* input: ((nc, state0, hw0, lc0, window_us), (reg0, reg1), acts, ops = [(t, (hold_w, hold_r), op)], (t_end, fuel)) *)
 Definition input := ((bool * bool * bool * Z * Z) * (list (Z * Z) * list (Z * Z)) * list (Z * list act)
-                     * list (Z * op) * (Z * Z))%type.
+                     * list (Z * (Z * Z) * op) * (Z * Z))%type.
 
 Definition run_case (i : input) : list (list Z) :=
   let '(c, rr, tab, ops, (tend, fuel)) := i in
   let '(nc, st0, h0, lc0, win) := c in
   let s0 := init_state nc st0 h0 lc0 win (fst rr) (snd rr) in
-  let '(s, lg) := run_ops (acts_of tab) (Z.to_nat fuel) 0 s0 (ops ++ [(tend, ONop)]) in
-  rows_cb lg ++ rows_ev lg ++ rows_q lg ++ rows_crash lg
+  let '(s, lg) := run_ops (acts_of tab) (Z.to_nat fuel) 0 s0 (ops ++ [(tend, (tend + 1, tend + 1), ONop)]) in
+  rows_cb lg ++ [4 :: sort_z (keys_w lg)] ++ rows_ev lg ++ rows_q lg ++ rows_crash lg
   ++ [[9; b2z (sst s); b2z (hw s); lc s]]
   ++ [8 :: sort_z (map snd (wakes (tm s)))]
   ++ [7 :: match cur (tm s) with Some (_, t) => [t] | None => [] end]
